@@ -2,7 +2,7 @@
 Model/DictMp4.lean, Model/DictAsf.lean, Model/DictEasyMp4.lean, Model/DictEasyId3.lean and print
 every output, canonicalised.
 
-request   dictx kind=mp4|asf|easymp4 ops=<op>,<op>,…          (`ops=-` or no `ops`: empty sequence)
+request   dictx kind=mp4|asf|easymp4|easyid3 ops=<op>,<op>,…          (`ops=-` or no `ops`: empty sequence)
           dictx table=mp4atoms                    the model's copy of a table of /repo
   <op>    get:<k>  set:<k>:<v>  del:<k>  in:<k>  keys  values  items  len  clear
           pop:<k>  popd:<k>:<v>  popitem  upd[:<k>:<v>]…  setd:<k>:<v>  getd:<k>:<v>
@@ -23,6 +23,7 @@ answer    ok out=<o>|<o>|…   one <o> per operation (`ok out=-` for the empty s
 import MutagenModel.Model.DictMp4
 import MutagenModel.Model.DictAsf
 import MutagenModel.Model.DictEasyMp4
+import MutagenModel.Model.DictEasyId3
 import MutagenModel.Model.Utf8
 import Driver.Util
 import Driver.Dict
@@ -182,8 +183,28 @@ def showEMKind : EMKind → String
 /-- the native MP4Tags of an EasyMP4Tags: its items, sorted by key -/
 def showMp4Native (s : Mp4) : String := ";".intercalate ((xSortedItems s).map (fun p => p.1 ++ "~" ++ p.2))
 
+def showEIKind : EIKind → String
+  | .text fid => "text:" ++ xHexOfText fid | .txxx d => "txxx:" ++ xHexOfText d | .genre => "genre"
+  | .date fid => "date:" ++ xHexOfText fid | .performer => "performer" | .trackid => "trackid"
+  | .website => "website" | .gain => "gain" | .peak => "peak"
+
+def showIFrame : IFrame → String
+  | .text enc l => s!"T{enc}:" ++ ".".intercalate (l.map xHexOfText)
+  | .stamps enc l => s!"S{enc}:" ++ ".".intercalate (l.map xHexOfText)
+  | .tmcl enc p => s!"M{enc}:" ++ ".".intercalate (p.map (fun x => xHexOfText x.1 ++ "-" ++ xHexOfText x.2))
+  | .ufid o d => "U" ++ xHexOfText o ++ ":" ++ toHex d
+  | .woar u => "W" ++ xHexOfText u
+  | .rva2 d ch g p => s!"R{xHexOfText d}:{ch}:{g}:{p}"
+
+/-- the native ID3 of an EasyID3: HashKey~frame, sorted by HashKey -/
+def showId3Native (s : Id3) : String :=
+  ";".intercalate (((s.map (fun p => (xHexOfText p.1, showIFrame p.2))).mergeSort (fun a b => !(b.1 < a.1))).map
+    (fun p => p.1 ++ "~" ++ p.2))
+
 def xTable (name : String) : Option String :=
   match name with
+  | "easyid3" =>
+    some (";".intercalate (easyId3Registry.map (fun e => xHexOfText e.key ++ ":" ++ showEIKind e.kind)))
   | "easymp4" =>
     some (";".intercalate (easyMp4Registry.map (fun e => xHexOfText e.key ++ ":" ++ xHexOfText e.atom ++ ":" ++ showEMKind e.kind)))
   | "mp4atoms" =>
@@ -207,6 +228,7 @@ def dictxOp (a : Args) : String :=
       | "mp4" => some (xRun mp4Impl.step (fun _ => "") ops [])
       | "asf" => some (xRun asfStep (fun _ => "") ops [])
       | "easymp4" => some (xRun easyMp4Impl.step showMp4Native ops [])
+      | "easyid3" => some (xRun easyId3Step showId3Native ops [])
       | _ => none
     match outs? with
     | none => "bad-op"
